@@ -33,14 +33,14 @@ def parse_fsnap(out):
 
 class Check(PropertyCheck):
     ID = "C11"
-    LEAN_MODULE = "JobShopProofs.Properties.C11World"
+    LEAN_MODULE = "JobShopProofs.Properties.C11All"
     THEOREMS = ["JS.C11_isReady", "JS.durationInit_jobs", "JS.durationUpdate_jobs", "JS.C11_duration_jobs",
                 "JS.C11_remaining_jobs", "JS.C11_isScheduled_ops", "JS.C11_constructible", "JS.C11_composite", "JS.C11_composite_names", "JS.C11_duration_ops_stale",
                 "JS.finv_run", "JS.C11_world", "JS.C11_world_isReady", "JS.C11_world_est_ops", "JS.C11_world_est_machines", "JS.C11_world_est_jobs",
                 "JS.C11_world_duration_ops", "JS.C11_world_duration_jobs", "JS.C11_world_duration_machines", "JS.C11_world_isScheduled_ops",
                 "JS.C11_world_isScheduled_machines", "JS.C11_world_isScheduled_jobs", "JS.C11_world_position", "JS.C11_world_remaining_jobs",
                 "JS.C11_world_remaining_machines", "JS.C11_world_completed_ops", "JS.C11_world_completed_jobs", "JS.C11_world_completed_machines",
-                "JS.C11_world_unscheduled", "JS.C11_est_is_earliest", "JS.C11_est_next_attained"]
+                "JS.C11_world_unscheduled", "JS.C11_est_is_earliest", "JS.C11_est_next_attained", "JS.C11_world_composite"]
     RULE = ("random instance (all families; machine-level count features only checked on non-flexible ones; with a filter "
             "installed only positive durations, as the property states) x random subset and order of the seven feature "
             "observers, each with a random subset of its feature types, plus a composite over them, all created on the "
